@@ -201,6 +201,19 @@ def cases_file(steps):
     return "\n".join(body) + "\n"
 
 
+def operands_after_mismatch(st):
+    """operands exported AFTER the call must equal the operands before it (tensors, coeff, qn, qnidx, qntot, to_right);
+    the prefactor folding of Mps.add / MpDm.add / Mps.distance is the one documented exception and is compared against the
+    model inside Coq.  Any OTHER live object that changed during the step counts as well."""
+    n = len(st.get("live_changed") or [])
+    after = st.get("after")
+    if st["op"] in ("add", "dmadd", "distance", "move"):
+        return n
+    if after is None:
+        return n + 1
+    return n + sum(1 for a_, b_ in zip(after, st["in"]) if a_ != b_)
+
+
 def load_result(r):
     """impl scripts hand large results over in a file (the harness reads the pipe only after exit)"""
     if r is None or "file" not in r:
@@ -278,6 +291,8 @@ def run(ctx):
                     d2 = st["fval"] ** 2
                     okd = v[1] == 0 and v[0] >= 0 and abs(d2 - v[0]) <= 1e-9 * max(1.0, abs(v[0]))
                     v = [0 if okd else 1, 0, 0, v[3]]
+                v = list(v)
+                v[3] += operands_after_mismatch(st)
                 if any(v):
                     mism.append((st, v))
     nontriv = sum(1 for st in steps if st.get("nontrivial"))
@@ -291,11 +306,11 @@ def run(ctx):
             if seen_ops.get(st["op"], 0) < 6:
                 seen_ops[st["op"]] = seen_ops.get(st["op"], 0) + 1
                 todo.append(st)
-        rc, r, out = ctx.impl("c03_replay.py", {"steps": [{k_: v_ for k_, v_ in st.items() if k_ != "out"} for st in todo]}, timeout=300)
+        rc, r, out = ctx.impl("c03_replay.py", {"steps": [{k_: v_ for k_, v_ in st.items() if k_ not in ("out", "after", "live_changed")} for st in todo]}, timeout=300)
         codes = r["codes"] if r else [None] * len(todo)
         for st, code in zip(todo, codes):
             if code and st["op"] not in replay_found:
-                slim = {k_: v_ for k_, v_ in st.items() if k_ != "out"}
+                slim = {k_: v_ for k_, v_ in st.items() if k_ not in ("out", "after", "live_changed")}
                 replay_found[st["op"]] = ("import sys, json\nsys.path.insert(0, '/verif/harness/impl')\nimport c03_replay\n"
                                           "step = json.loads(r'''%s''')\nsys.exit(c03_replay.replay(step))\n" % json.dumps(slim))
 
@@ -356,7 +371,9 @@ def run(ctx):
         detail = {"op": op, "mismatch_counts [tensors, coeff, labels, operands-after]": v, "mismatching_steps": len(lst),
                   "impl_result_labels": {"qn": st["out"][0]["qn"], "qnidx": st["out"][0]["qnidx"], "qntot": st["out"][0]["qntot"]} if st.get("out") else None,
                   "impl_value": st.get("fval", st.get("val")),
-                  "operand_centres": [o["qnidx"] for o in st["in"]]}
+                  "operand_centres": [o["qnidx"] for o in st["in"]],
+                  "operand_qntot_before_after": [[b_["qntot"], a_["qntot"]] for b_, a_ in zip(st["in"], st.get("after") or [])],
+                  "other_live_objects_changed": len(st.get("live_changed") or [])}
         repro = replay_found.get(op)
         key = "corr:" + op
         if repro is None:
